@@ -128,3 +128,76 @@ func VxH_C12_paragraph() {
 		}
 	}
 }
+
+// break-before: avoid between two paragraphs: the break between them is taken only when the
+// first paragraph offers no conforming break position of its own (orphans / widows 2) on that page.
+func VxH_C12_avoid_paragraph() {
+	wordsA := []string{"aaa", "bbb", "ccc", "ddd", "eee"}
+	n := 3 + vx.Choose("lines-a", 3)
+	avoid := vx.Choose("break-before-b", 2) == 1
+	H := pr.Float(vx.F32("page-height"))
+	vx.Assume(vx.And(H >= 25, H <= 75))
+	a := ""
+	for i := 0; i < n; i++ {
+		if i > 0 {
+			a += " "
+		}
+		a += wordsA[i]
+	}
+	bstyle := ""
+	if avoid {
+		bstyle = " style=\"break-before:avoid\""
+	}
+	css := "html,body{margin:0;padding:0} p{display:block;margin:0;width:30px;font-size:10px;line-height:10px;orphans:2;widows:2} "
+	src := "<html><head><style>head{display:none} " + css + "</style></head><body><p>" + a + "</p><p" + bstyle + ">xxx yyy</p></body></html>"
+	doc, err := tree.NewHTML(utils.InputString(src), "", nil, "")
+	if err != nil {
+		panic(err)
+	}
+	D := func(p pr.KnownProp, v pr.DeclaredValue) tree.VxDecl { return tree.VxDecl{Prop: p, Value: v} }
+	zero := vxPxV(0)
+	page := tree.VxPageSheet(D(pr.PSize, pr.Point{pr.Dimension{Value: 100, Unit: pr.Px}, pr.Dimension{Value: H, Unit: pr.Px}}),
+		D(pr.PMarginTop, zero), D(pr.PMarginBottom, zero), D(pr.PMarginLeft, zero), D(pr.PMarginRight, zero))
+	pages := Layout(doc, []tree.CSS{page}, false, text.VxAhem{})
+	vx.Reach("laid-out")
+	c := 1
+	for float64(c+1)*10 <= float64(H) {
+		c++
+	}
+	want := append(append([]string{}, wordsA[:n]...), "xxx", "yyy")
+	k := 0
+	ok := true
+	var frags [][]string
+	for _, p := range pages {
+		ls := vxPageLines(p)
+		frags = append(frags, ls)
+		for _, t := range ls {
+			if k >= len(want) || t != want[k] {
+				ok = false
+			}
+			k++
+		}
+	}
+	vx.Assert("every-line-once-in-order", ok && k == len(want))
+	for i, f := range frags {
+		vx.Assert("page-not-overfull:"+string(rune('0'+i)), len(f) <= c)
+	}
+	if !avoid {
+		return
+	}
+	// does a page end exactly between the two paragraphs?
+	for i, f := range frags {
+		if len(f) > 0 && f[len(f)-1] == wordsA[n-1] && i+1 < len(frags) {
+			vx.Reach("break-between-the-paragraphs")
+			// lines of the first paragraph on this page, and whether the paragraph starts on it
+			fa := len(f)
+			starts := f[0] == wordsA[0]
+			lo := 2 // orphans
+			if !starts {
+				lo = 2 // widows of the fragment continued from the previous page
+			}
+			conforming := fa-2 >= lo // a position j with lo <= j <= fa - widows
+			vx.Assert("avoid-honoured-when-the-paragraph-can-break", !conforming)
+		}
+	}
+}
